@@ -64,8 +64,8 @@ MUST_REACH = [
 ]
 MUST_COUNT = ["branch_outputs_compared", "identity_graphs_walked", "contexts_mutated",
               "later_computes_compared"]
-MIN_NONTRIVIAL = {"quick": 4000, "thorough": 150000}
-NCASES = {"quick": (4000, 4000), "thorough": (150000, 150000)}
+MIN_NONTRIVIAL = {"quick": 9000, "thorough": 350000}
+NCASES = {"quick": (8000, 8000), "thorough": (300000, 300000)}
 
 LEVEL_TEXT = ("Seeded random exploration. (a) every generated Split/Zip program is executed on "
               "the real code and each branch's tagged outputs are compared with the same "
@@ -410,7 +410,8 @@ def rand_acc_values(rng, er, n):
             d = ["T"] + [rng.randint(-1, 7) for _ in range(dom[1])]
         c = None if rng.random() < 0.2 else rand_tree_ctx(rng, i)
         if c is not None:
-            c.pop("variable", None) if rng.random() < 0.5 else None
+            if rng.random() < 0.5:
+                c.pop("variable", None)
             c.pop("output", None)
         out.append({"d": d, "c": c})
     return out
